@@ -162,6 +162,8 @@ class Interp:
         self.attr_hook = None
         self.method_hook = None
         self.module_globals = {}
+        self.overrides.setdefault("set", lambda x=(): self._make_set(x, set))
+        self.overrides.setdefault("frozenset", lambda x=(): self._make_set(x, frozenset))
         self.instantiable = set()  # names of repository classes that may be instantiated from source
 
     # ------------------------------------------------------------------ calls
@@ -594,6 +596,8 @@ class Interp:
             return self.entity_value(r, obj, attr)
         if isinstance(obj, ModelledClass):
             obj = obj.info
+        if isinstance(obj, ClassInfo) and attr == "__name__":
+            return obj.name
         if isinstance(obj, ClassInfo):
             r = self.prog.lookup(obj, attr)
             if isinstance(r, FuncInfo):
@@ -727,6 +731,18 @@ class Interp:
                 return False
             left = right
         return True
+
+    def _make_set(self, items, kind):
+        items = list(items)
+        if not any(self.obj_class(x) is not None for x in items):
+            return kind(_hashable(x) for x in items)
+        reps = []
+        for x in items:
+            if not self.is_hashable_obj(x):
+                raise LiftRaise(f"TypeError: unhashable type: '{self.obj_class(x).name}'")
+            if not any(r is x or self.obj_eq(r, x) for r in reps):
+                reps.append(x)
+        return kind(reps)
 
     # ---- object model: instances of repository classes are Obj(__class__=ClassInfo) ----------
     def obj_class(self, x):
